@@ -1,6 +1,7 @@
 """C15 - zone and row/column addressing hits exactly the addressed cells."""
 from verif import progcheck
 from verif.checks import progbase
+from verif.runner import Acc
 
 ID = 'C15'
 LEVEL = 'exploration'
@@ -61,17 +62,76 @@ def nontrivial(outcome, case):
 
 
 def plan(tier, seed_value):
-    return progbase.plan(ID, tier, seed_value, quick=4000, thorough=160000)
+    specs = progbase.plan(ID, tier, seed_value, quick=4000, thorough=160000)
+    specs.append({'kind': 'fractional'})
+    return specs
 
 
 def run_shard(spec):
+    if spec.get('kind') == 'fractional':
+        return run_fractional()
     return progbase.run_shard(spec, ID, PROFILE, nontrivial,
                               need=('matrix', 'mz', 'plain'), tolerance=0)
 
 
 def replay(case):
+    if case.get('kind') == 'fractional':
+        acc = Acc()
+        check_fractional(acc, case['text'], case['values'])
+        return [(f['sig'], f['what']) for f in acc.failures.values()]
     return progbase.replay(case, ID, nontrivial, tolerance=0)
 
 
 def shrink(failure):
+    if failure['case'].get('kind') == 'fractional':
+        return failure
     return progbase.shrink(failure, ID, nontrivial, tolerance=0)
+
+
+# ---- zone numbers that are not whole (interpolating loops produce them) -----------------
+# Which neighbour a fraction addresses is not laid down; that ONE zone per
+# value is coloured, a neighbour of the value, and one request made, is.
+def check_fractional(acc, text, values):
+    from verif.harness import shared_world
+    world = shared_world('c15-fractional', [
+        {'label': 'Z', 'group': 'G', 'location': 'L', 'kind': 'mz',
+         'zones': 16}])
+    del world.trace[:]
+    result = world.run(text, budget=20000)
+    case = {'kind': 'fractional', 'text': text, 'values': values}
+    acc.case(key=text, nontrivial=any(v != int(v) for v in values),
+             labels=['fractional-zone'],
+             sample={'script': text} if len(acc.samples) < 2 else None)
+    if not result.compiled or result.aborted:
+        acc.fail('fractional-zone:did-not-run', '{} -> {} {}'.format(
+            text, result.errors.strip(), result.aborted), case)
+        return
+    ranges = [(e[3], e[4]) for e in result.trace
+              if e[0] == 'cmd' and e[2] == 'set_zone_color']
+    if len(ranges) != len(values):
+        acc.fail('fractional-zone:requests', '{} -> {} zone requests for {} '
+                 'zone commands'.format(text, len(ranges), len(values)), case)
+        return
+    for value, (start, end) in zip(values, ranges):
+        if end - start != 1 or not (
+                int(value // 1) <= start <= int(-(-value // 1))):
+            acc.fail('fractional-zone:cells',
+                     '{} -> zone {} coloured zones {}..{} (end exclusive): '
+                     'not exactly one zone next to {}'.format(
+                         text, value, start, end, value), case)
+            return
+
+
+def run_fractional():
+    acc = Acc()
+    for whole in range(0, 15):
+        for fraction in (0, 0.25, 0.5, 0.75):
+            value = whole + fraction
+            check_fractional(acc, 'set "Z" zone {}'.format(value), [value])
+            check_fractional(acc, 'assign v {{{} / 4}} set "Z" zone v'.format(
+                int(value * 4)), [value])
+    for count, last in ((5, 10), (4, 10), (9, 14), (3, 1)):
+        values = [last * k / (count - 1) for k in range(count)]
+        check_fractional(acc, 'repeat {} with z from 0 to {} begin '
+                         'set "Z" zone z end'.format(count, last), values)
+    return acc
